@@ -220,52 +220,7 @@ def run(ctx):
         ctx.ob('RECGUARD-S', fl, okb, short_loc(b.span),
                whyb if okb else 'recursion depth follows the schema graph with no depth budget: a deep (acyclic) graph overflows the stack')
 
-    # ---- serde-mediated recursion of the JSON rendering
-    ser = [b for b in scope if fn_label(b) == '<schema::safe::serialize::SerializeSchema as serde_core::ser::Serialize>::serialize']
-    ctx.ob('RECGUARD-T', 'json/impls-found', len(ser) == 3, None, '%d Serialize impls for SerializeSchema' % len(ser), nontrivial=False)
-    keyimpl = [b for b in ser if 'SchemaKey>' in (b.j.get('self_ty') or '')]
-    if len(keyimpl) != 1:
-        ctx.ob('RECGUARD-T', 'json/key-impl', False, None, 'Serialize impl for SerializeSchema<SchemaKey> not found')
-    else:
-        kb = keyimpl[0]
-        ctx.touched(kb)
-        n = 0
-        for bb, t in sorted(kb.calls()):
-            c = strip_generics(cname(t))
-            if c.endswith('SerializeSchema::serializable') or c.endswith('SerializeSchema::serializable_with_namespace'):
-                n += 1
-                ok, why = guarded_by_visited(f, kb, bb)
-                if not ok:
-                    # guard helpers: no_cycle_guard()? success edge or should_write_as_ref() == false
-                    for d, si, taken in dominating_switches(kb, bb):
-                        o = origin(kb, si['place']) if si.get('kind') == 'enum' else origin(kb, si['op'])
-                        for a in o.atoms:
-                            if a[0] == 'call' and (a[1].endswith('::no_cycle_guard') or a[1].endswith('::should_write_as_ref')):
-                                ok, why = True, 'dominated by the result of %s' % strip_generics(a[1]).rsplit('::', 1)[1]
-                ctx.ob('RECGUARD-T', 'json/edge#%d' % n, ok, short_loc(t.get('span')),
-                       ('child rendering is %s' % why) if ok else 'child rendering with no cycle guard')
-        ctx.floor('RECGUARD-T', 'json child renderings', n, 4)
-        # the guards themselves test the per-node table and error / short-circuit
-        for gname in ('no_cycle_guard', 'should_write_as_ref'):
-            gb = [b for b in scope if fn_label(b) == 'schema::safe::serialize::SerializeSchema::' + gname]
-            okg = False
-            if gb:
-                g = gb[0]
-                ctx.touched(g)
-                for bb in sorted(g.live_blocks()):
-                    if g.term(bb)['k'] == 'switch':
-                        si = g.switch_info(bb)
-                        cond = switch_condition(g, si)
-                        if cond[0] == 'cmp':
-                            lo, ro = origin(g, cond[2]), origin(g, cond[3])
-                            if 'node_traversal_state' in (lo.fields | ro.fields):
-                                okg = True
-            ctx.ob('RECGUARD-T', 'json/%s-tests-node-state' % gname, okg, short_loc(gb[0].span) if gb else None,
-                   '%s compares the per-node traversal state: %s' % (gname, okg))
-        fam = ser + [b for b in scope if fn_label(b).startswith('schema::safe::serialize::SerializeSchema::')]
-        okb, whyb = has_depth_budget(f, fam)
-        ctx.ob('RECGUARD-S', 'schema::safe::serialize::SerializeSchema::serialize', okb, short_loc(kb.span),
-               whyb if okb else 'JSON rendering recursion follows the schema graph with no depth budget (the visited table bounds it only by the number of nodes)')
+    json_recursion(ctx, with_budget=True)
 
     # ---- Debug rendering is depth-limited
     dbg = [b for b in scope if fn_label(b) == '<schema::self_referential::SchemaNode as core::fmt::Debug>::fmt']
@@ -348,6 +303,59 @@ def run(ctx):
                 ok = te is not None and te[1] is not None and all_paths_err(b, te[1])
         ctx.ob('KEYBOUNDS', label.rsplit('::', 1)[1] + ('/json' if fld != 'nodes' else ''), ok, short_loc(bs[0].span) if bs else None,
                'node looked up with .get(key.idx) and a missing node returns Err: %s' % ok)
+
+
+def json_recursion(ctx, with_budget=False):
+    """serde-mediated recursion of the JSON rendering: every child rendering is cycle-guarded"""
+    f = ctx.f
+    scope = [b for b in f.body_list if in_scope(b)]
+    # ---- serde-mediated recursion of the JSON rendering
+    ser = [b for b in scope if fn_label(b) == '<schema::safe::serialize::SerializeSchema as serde_core::ser::Serialize>::serialize']
+    ctx.ob('RECGUARD-T', 'json/impls-found', len(ser) == 3, None, '%d Serialize impls for SerializeSchema' % len(ser), nontrivial=False)
+    keyimpl = [b for b in ser if 'SchemaKey>' in (b.j.get('self_ty') or '')]
+    if len(keyimpl) != 1:
+        ctx.ob('RECGUARD-T', 'json/key-impl', False, None, 'Serialize impl for SerializeSchema<SchemaKey> not found')
+    else:
+        kb = keyimpl[0]
+        ctx.touched(kb)
+        n = 0
+        for bb, t in sorted(kb.calls()):
+            c = strip_generics(cname(t))
+            if c.endswith('SerializeSchema::serializable') or c.endswith('SerializeSchema::serializable_with_namespace'):
+                n += 1
+                ok, why = guarded_by_visited(f, kb, bb)
+                if not ok:
+                    # guard helpers: no_cycle_guard()? success edge or should_write_as_ref() == false
+                    for d, si, taken in dominating_switches(kb, bb):
+                        o = origin(kb, si['place']) if si.get('kind') == 'enum' else origin(kb, si['op'])
+                        for a in o.atoms:
+                            if a[0] == 'call' and (a[1].endswith('::no_cycle_guard') or a[1].endswith('::should_write_as_ref')):
+                                ok, why = True, 'dominated by the result of %s' % strip_generics(a[1]).rsplit('::', 1)[1]
+                ctx.ob('RECGUARD-T', 'json/edge#%d' % n, ok, short_loc(t.get('span')),
+                       ('child rendering is %s' % why) if ok else 'child rendering with no cycle guard')
+        ctx.floor('RECGUARD-T', 'json child renderings', n, 4)
+        # the guards themselves test the per-node table and error / short-circuit
+        for gname in ('no_cycle_guard', 'should_write_as_ref'):
+            gb = [b for b in scope if fn_label(b) == 'schema::safe::serialize::SerializeSchema::' + gname]
+            okg = False
+            if gb:
+                g = gb[0]
+                ctx.touched(g)
+                for bb in sorted(g.live_blocks()):
+                    if g.term(bb)['k'] == 'switch':
+                        si = g.switch_info(bb)
+                        cond = switch_condition(g, si)
+                        if cond[0] == 'cmp':
+                            lo, ro = origin(g, cond[2]), origin(g, cond[3])
+                            if 'node_traversal_state' in (lo.fields | ro.fields):
+                                okg = True
+            ctx.ob('RECGUARD-T', 'json/%s-tests-node-state' % gname, okg, short_loc(gb[0].span) if gb else None,
+                   '%s compares the per-node traversal state: %s' % (gname, okg))
+        fam = ser + [b for b in scope if fn_label(b).startswith('schema::safe::serialize::SerializeSchema::')]
+        okb, whyb = has_depth_budget(f, fam)
+        if with_budget:
+          ctx.ob('RECGUARD-S', 'schema::safe::serialize::SerializeSchema::serialize', okb, short_loc(kb.span),
+                 whyb if okb else 'JSON rendering recursion follows the schema graph with no depth budget (the visited table bounds it only by the number of nodes)')
 
 
 _META = {}
